@@ -2,7 +2,7 @@
    Print Assumptions.  Costs are integers (dyadic floats scaled by 2^30; 2^-26 is 16). *)
 From Coq Require Import ZArith List Bool.
 From Centro Require Import Base.Sx Model.Lapjv Spec.Lapjv Proofs.LapjvCert Proofs.LapjvRefute Proofs.LapjvTrack
-  Proofs.LapjvPhases Proofs.LapjvAbstract Proofs.LapjvGrid Proofs.LapjvArr Proofs.LapjvRows Proofs.LapjvTrackCost Proofs.LapjvRt Proofs.LapjvHall Proofs.LapjvBsearch Proofs.LapjvTrackLink Proofs.LapjvArrExt Proofs.LapjvExtModel Proofs.LapjvAugMarks Proofs.LapjvAugFlip Proofs.LapjvAugPred Proofs.LapjvAugRows Proofs.LapjvPerm Proofs.LapjvFixedPerm Proofs.LapjvAugFuel Proofs.LapjvAugPrice Proofs.LapjvAugStamps Proofs.LapjvAugOpt Proofs.LapjvAugDist Proofs.LapjvAugDistHyp Proofs.LapjvAugPriceExt Proofs.LapjvReserved Proofs.LapjvRefPerm Proofs.LapjvAugDistR Proofs.LapjvAugDistHypR Proofs.LapjvAugTotalR Proofs.LapjvRefTotal Proofs.LapjvReservedOpt.
+  Proofs.LapjvPhases Proofs.LapjvAbstract Proofs.LapjvGrid Proofs.LapjvArr Proofs.LapjvRows Proofs.LapjvTrackCost Proofs.LapjvRt Proofs.LapjvHall Proofs.LapjvBsearch Proofs.LapjvTrackLink Proofs.LapjvArrExt Proofs.LapjvExtModel Proofs.LapjvAugMarks Proofs.LapjvAugFlip Proofs.LapjvAugPred Proofs.LapjvAugRows Proofs.LapjvPerm Proofs.LapjvFixedPerm Proofs.LapjvAugFuel Proofs.LapjvAugPrice Proofs.LapjvAugStamps Proofs.LapjvAugOpt Proofs.LapjvAugDist Proofs.LapjvAugDistHyp Proofs.LapjvAugPriceExt Proofs.LapjvReserved Proofs.LapjvRefPerm Proofs.LapjvAugDistR Proofs.LapjvAugDistHypR Proofs.LapjvAugTotalR Proofs.LapjvRefTotal Proofs.LapjvReservedOpt Proofs.LapjvAugDistE Proofs.LapjvRefAll.
 Import ListNotations.
 Open Scope Z_scope.
 
@@ -621,10 +621,9 @@ Theorem C01_lapjv_ref_fixed_total_partial : forall n tri,
   NoDup (map fst tri) ->
   (forall j, (j < n)%nat -> exists t, In t tri /\ t_j t = j) ->
   has_PM n tri ->
-  (forall i, (i < n)%nat -> (2 <= length (filter (fun t => (t_i t =? i)%nat) tri))%nat) ->
   forall epsr k, 0 <= epsr -> arr_returns_b epsr k n tri = true ->
   exists x y u v, lapjv_ref Fixed 0 epsr k n tri = Some (x, y, u, v).
-Proof. exact ref_total_2. Qed.
+Proof. exact lapjv_ref_fixed_total_all. Qed.
 Print Assumptions C01_lapjv_ref_fixed_total_partial.
 
 Theorem C01_lapjv_ref_returns_arr : forall n tri k epsr x y u v,
@@ -632,8 +631,9 @@ Theorem C01_lapjv_ref_returns_arr : forall n tri k epsr x y u v,
 Proof. exact lapjv_ref_returns_arr. Qed.
 Print Assumptions C01_lapjv_ref_returns_arr.
 
-(* END TO END for the reference variant - the property's first sentence: for every sparse input in range without duplicate
-   pairs, with every column mentioned, a perfect matching and >= 2 candidates per row, the (Fixed, eps 0, true infinity)
+(* END TO END for the reference variant - the property's first sentence: for EVERY sparse input in range without duplicate
+   pairs, with every column mentioned and a perfect matching (round 14: one-candidate rows included, the premise ">= 2
+   candidates per row" is gone - Proofs.LapjvAugDistE, Proofs.LapjvRefAll), the (Fixed, eps 0, true infinity)
    solver RETURNS (x, y, u, v) with x a minimum-cost perfect matching over listed pairs and x, y mutually inverse
    permutations - under the same single premise arr_returns_b (missing lemma: arr_passes_total, see above). *)
 Theorem C01_lapjv_ref_fixed_correct_partial : forall n tri,
@@ -641,10 +641,9 @@ Theorem C01_lapjv_ref_fixed_correct_partial : forall n tri,
   NoDup (map fst tri) ->
   (forall j, (j < n)%nat -> exists t, In t tri /\ t_j t = j) ->
   has_PM n tri ->
-  (forall i, (i < n)%nat -> (2 <= length (filter (fun t => (t_i t =? i)%nat) tri))%nat) ->
   forall epsr k, 0 <= epsr -> arr_returns_b epsr k n tri = true ->
   exists x y u v, lapjv_ref Fixed 0 epsr k n tri = Some (x, y, u, v) /\ Optimal n tri x /\ Inverse n x y.
-Proof. exact ref_correct_2. Qed.
+Proof. exact lapjv_ref_fixed_correct_all. Qed.
 Print Assumptions C01_lapjv_ref_fixed_correct_partial.
 
 (* the same with the eps band ON (the code's 2^-26 at :202 and :208) for costs on a grid coarser than eps, e.g. integers;
@@ -654,11 +653,10 @@ Theorem C01_lapjv_ref_fixed_correct_grid_partial : forall n tri,
   NoDup (map fst tri) ->
   (forall j, (j < n)%nat -> exists t, In t tri /\ t_j t = j) ->
   has_PM n tri ->
-  (forall i, (i < n)%nat -> (2 <= length (filter (fun t => (t_i t =? i)%nat) tri))%nat) ->
   forall g eps epsr k,
   0 <= eps < g -> 0 <= epsr < g -> (forall t, In t tri -> (g | t_c t)) -> arr_returns_b 0 k n tri = true ->
   exists x y u v, lapjv_ref Fixed eps epsr k n tri = Some (x, y, u, v) /\ Optimal n tri x /\ Inverse n x y.
-Proof. exact ref_correct_grid_2. Qed.
+Proof. exact lapjv_ref_fixed_correct_all_grid. Qed.
 Print Assumptions C01_lapjv_ref_fixed_correct_grid_partial.
 
 (* END TO END, FULL (no premise left), for augmenting_row_reductions = 0 - the setting of the F20 witness: for EVERY sparse
@@ -734,6 +732,37 @@ Theorem C01_arr_fuel_not_total :
   exists n tri k, wf n tri /\ has_PM n tri /\ (forall t, In t tri -> (1073741824 | t_c t)) /\ arr_returns_b 16 k n tri = false.
 Proof. exact arr_fuel_not_total. Qed.
 Print Assumptions C01_arr_fuel_not_total.
+
+(* Round 14: augment over states with prices in Fin | -inf.  The loop-head invariant K of the reference variant lifted from
+   Inv to InvE (Proofs.LapjvAugDistE): it speaks about live (finite-priced) columns; reserved columns keep d = +inf, sit on
+   to_do only as candidates of the free row, are picked up by aug_min only while umin = +inf and dropped at the first finite
+   candidate, and are skipped by aug_relax.  The Hall step: at a rebuild some not-done to_do column has a finite d - otherwise
+   L = r :: rows of ready ++ rows of reserved columns would have all candidates in C = ready ++ reserved. *)
+Theorem C01_aug_scan_nonempty_ext : forall (r n : nat) (rows : list (list (nat * ext))) (x y : list nat) (v : list ext),
+  (forall i j c, In (j, c) (row rows i) -> (j < n)%nat /\ exists z, c = Fin z) ->
+  InvE n rows x y v ->
+  (forall L C : list nat, NoDup L -> (forall i, In i L -> (i < n)%nat) ->
+     (forall i j c, In i L -> In (j, c) (row rows i) -> In j C) -> (length L <= length C)%nat) ->
+  (r < n)%nat -> free n y r ->
+  forall s mu, LapjvAugDistE.K r n rows y v s mu -> LapjvAugDistE.Fd r rows v (g_d s) ->
+  LapjvAugDistE.Gd n rows y v (g_d s) (g_ready s) -> g_scan s = [] ->
+  exists j, In j (g_todo s) /\ getn (g_done s) j n <> r /\ LapjvAugDistR.fin (g_d s) j.
+Proof. exact rebuild_finite. Qed.
+Print Assumptions C01_aug_scan_nonempty_ext.
+
+(* augment for all pending rows, from any state satisfying InvE + Ord: it returns, and InvE + Ord hold again *)
+Theorem C01_aug_rows_all_ext : forall (n : nat) (rows : list (list (nat * ext))),
+  (forall i j c, In (j, c) (row rows i) -> (j < n)%nat /\ exists z, c = Fin z) ->
+  (forall i, NoDup (map fst (row rows i))) ->
+  (forall L C : list nat, NoDup L -> (forall i, In i L -> (i < n)%nat) ->
+     (forall i j c, In i L -> In (j, c) (row rows i) -> In j C) -> (length L <= length C)%nat) ->
+  (forall i j c, In (j, c) (row rows i) -> cost_at (rowget rows i) j <> None) ->
+  forall ii s,
+  St n s -> InvE n rows (m_x s) (m_y s) (m_v s) -> Ord n rows (m_y s) (m_v s) -> Pending n (m_y s) ii -> Hyg n s ii ->
+  exists sf, fold_left (aug_row n PInf rows) ii (Some s) = Some sf /\
+    InvE n rows (m_x sf) (m_y sf) (m_v sf) /\ Ord n rows (m_y sf) (m_v sf).
+Proof. exact aug_rows_allE. Qed.
+Print Assumptions C01_aug_rows_all_ext.
 
 (* completeness of phases 1-3 (every row is pending or assigned) ... *)
 Theorem C01_phase1_comp : forall n tri,
